@@ -126,25 +126,24 @@ structure Built where
   chk : Nat
   bad : Bool
 
-/-- the constructor: bucket every point (in index order, `push_back`) -/
+/-- the constructor: `Buckets.build` of the model (position `i` goes to the bucket with its three
+truncated indices, in index order); the bucket indices are computed once per position and the
+model's bucket function is tabulated once per grid (memoisation only) -/
 def build (n : Int) (a s : V3 Float) (pts : Array (V3 Float)) : Built :=
   let nn := n.toNat
-  let init : Array (List Nat) := Array.replicate (nn * nn * nn) []
-  let (bk, chk, bad) := (List.range pts.size).foldl (fun (acc : Array (List Nat) × Nat × Bool) i =>
-    let p := pts[i]!
-    let ix := bucketIndex n p.x a.x s.x
-    let iy := bucketIndex n p.y a.y s.y
-    let iz := bucketIndex n p.z a.z s.z
-    let chk := (acc.2.1 * 31 + ((ix.toNat * 1000 + iy.toNat) * 1000 + iz.toNat)) % 1000000007
-    if ix < 0 ∨ ix ≥ n ∨ iy < 0 ∨ iy ≥ n ∨ iz < 0 ∨ iz ≥ n then (acc.1, chk, true)
-    else
-      let k := ((ix.toNat * nn) + iy.toNat) * nn + iz.toNat
-      (acc.1.modify k (fun l => l ++ [i]), chk, acc.2.2)) (init, 0, false)
+  let ids : Array (Int × Int × Int) := pts.map (fun p => pointBucket n a s p)
+  let g0 : BGrid Float := Buckets.build n a s (fun i => pts[i]!) pts.size
+  let gm : BGrid Float := { g0 with bucket := bucketsFrom (fun i => ids[i]!) pts.size }
+  let tbl : Array (List Nat) := Array.ofFn (n := nn * nn * nn) (fun k =>
+    gm.bucket (Int.ofNat (k.val / (nn * nn))) (Int.ofNat ((k.val / nn) % nn)) (Int.ofNat (k.val % nn)))
+  let (chk, bad) := ids.foldl (fun (acc : Nat × Bool) (id : Int × Int × Int) =>
+    let (ix, iy, iz) := id
+    let chk := (acc.1 * 31 + ((ix.toNat * 1000 + iy.toNat) * 1000 + iz.toNat)) % 1000000007
+    (chk, acc.2 || decide (ix < 0 ∨ ix ≥ n ∨ iy < 0 ∨ iy ≥ n ∨ iz < 0 ∨ iz ≥ n))) (0, false)
   let bucket : Int → Int → Int → List Nat := fun ix iy iz =>
     if ix < 0 ∨ ix ≥ n ∨ iy < 0 ∨ iy ≥ n ∨ iz < 0 ∨ iz ≥ n then []
-    else bk[((ix.toNat * nn) + iy.toNat) * nn + iz.toNat]!
-  { g := { anchor := a, cs := cellSides s n, n := n, bucket := bucket, pos := fun i => pts[i]! },
-    npts := pts.size, chk := chk, bad := bad }
+    else tbl[((ix.toNat * nn) + iy.toNat) * nn + iz.toNat]!
+  { g := { g0 with bucket := bucket }, npts := pts.size, chk := chk, bad := bad }
 end Pl
 
 namespace Ad
@@ -183,6 +182,13 @@ structure Built where
 def quads : List String → List (V3 Float × Float)
   | x :: y :: z :: h :: r => (⟨flt! x, flt! y, flt! z⟩, flt! h) :: quads r
   | _ => []
+
+/-- number of positions stored in the tree (the recursion fuel of `addPos` drops a position only
+if two positions do not separate within 64 levels; checked on every `oct new`) -/
+def countLeaves : OT Float → Nat
+  | .empty => 0
+  | .leaf _ => 1
+  | .node _ _ kids => (List.finRange 8).foldl (fun acc i => acc + countLeaves (kids i)) 0
 
 def pd (b : Built) (c : V3 Float) (i : Nat) : Float :=
   if b.per then perDist b.box (b.pos[i]!) c else dist (b.pos[i]!) c
@@ -344,7 +350,8 @@ def step (st : St) : List String → St × String
     let hs := (qs.map (·.2)).toArray
     let box : GridNum.Box3 Float := ⟨flt! ax, flt! ay, flt! az, flt! sx, flt! sy, flt! sz⟩
     let tree := Oct.build (fun i => pos[i]!) pos.size box (fun i => hs[i]!)
-    ({ st with oc := { tree := tree, pos := pos, hs := hs, box := box, per := per == "1" } }, s!"oct new {pos.size}")
+    let stored := if Oc.countLeaves tree == pos.size then "#oct-all-stored" else "#oct-fuel-dropped-a-position"
+    ({ st with oc := { tree := tree, pos := pos, hs := hs, box := box, per := per == "1" } }, s!"oct new {pos.size} {stored}")
   | ["oct", "ngbs", qx, qy, qz] =>
     let b := st.oc
     let c : GridNum.V3 Float := ⟨flt! qx, flt! qy, flt! qz⟩
